@@ -20,7 +20,7 @@ from tola.assembly.scaffold import Scaffold
 
 BIG = 10**12
 GAP_TYPES = ["scaffold", "contig", "centromere", "short_arm", "heterochromatin", "telomere", "repeat", "contamination"]
-FRAG_NAMES = ["c1", "a:b", "x-1:2-3", "p q r"]
+FRAG_NAMES = ["c1", "a:b", "x-1:2-3", "p q r", "k%s%%"]
 COORDS = [(1, 1), (1, 5), (5, BIG)]
 TAGSETS = [(), ("Painted",), ("Painted", "X"), ("Painted", "W", "Haplotig", "Unloc", "Hap1", "Cut")]
 
@@ -39,7 +39,7 @@ REDUCED = [
     ("G", 1, "centromere"),
     ("G", BIG, "short_arm"),
 ]
-NAMES = ["s1", "a:b", "x-1", "1:2-3", "s 1", "_", "scé", " s1", "s1 "]
+NAMES = ["s1", "a:b", "x-1", "1:2-3", "s 1", "_", "scé", " s1", "s1 ", "u%%7", "50%", "c%d_r"]
 HEADERS = [(), ("HiC MAP RESOLUTION: 2.500000 bp/texel",), ("text with  inner spaces", "second: line", "trailing blank ")]
 
 
@@ -453,3 +453,4 @@ class C05(Check):
 CHECK = C05()
 # scope added in later rounds, kept in the evidence text
 CHECK.rule += ' Rows with six tags; asm-format with two and three input files into one output (file and stdout).'
+CHECK.rule += " Scaffold and contig names containing '%' (u%%7, 50%, c%d_r, k%s%%)."
